@@ -2,7 +2,10 @@
 import json
 import os
 import re
+import sys
 import xml.parsers.expat
+
+sys.setrecursionlimit(max(sys.getrecursionlimit(), 20000))      # libs nested a few hundred deep
 
 META = {
     "level": "proof",
@@ -91,7 +94,18 @@ def _attrs(pairs):
     return {k: v for k, v in pairs if v is not None}
 
 
+def expand_pv(v):
+    """["n", [wrapper...], inner] (a chain of one-child containers, written flat by the harness) -> nested form"""
+    if v[0] != "n":
+        return v
+    x = expand_pv(v[2])
+    for w in reversed(v[1]):
+        x = ["a", [x]] if w == "a" else ["m", [[w[1], x]]]
+    return x
+
+
 def spec_plist(v):
+    v = expand_pv(v)
     t, x = v
     if t == "m":
         kids = []
@@ -222,6 +236,7 @@ def _dos(tag, o):
 
 
 def dump_pv(v):
+    v = expand_pv(v)
     t, x = v
     if t == "b":
         return _T0("bt" if x else "bf")
@@ -306,6 +321,7 @@ def glist(xs, f):
 
 
 def gpv(v):
+    v = expand_pv(v)
     t, x = v
     if t == "s":
         return "(S_ %s)" % gs(x)
@@ -854,7 +870,22 @@ def _simpler(doc):
                     emit(lambda d, si=si, i=i: d["instances"][si]["lib"].pop(i))
 
     def simpler_pv(path_get, v):
-        t, val = v
+        t, val = v[0], v[1]
+        if t == "n":
+            n = len(val)
+            for keep in sorted(set([n // 2, n - 8, n - 1])):
+                if 0 <= keep < n:
+                    def cut(d, keep=keep):
+                        node = path_get(d)
+                        if keep >= 2:
+                            node[1] = node[1][:keep]
+                        else:
+                            inner = node[2]
+                            for w in reversed(node[1][:keep]):
+                                inner = ["a", [inner]] if w == "a" else ["m", [[w[1], inner]]]
+                            node[:] = inner
+                    emit(cut)
+            return
         if t in ("a", "m") and val:
             for i in range(len(val)):
                 emit(lambda d, i=i: path_get(d)[1].pop(i))
@@ -991,7 +1022,14 @@ def run(ctx, known, built):
             if rec.get("load") == "panic" or rec.get("save") == "panic":
                 ctx.disagreements.append({"what": "panic in save/load", "case": rec["i"], "msg": rec.get("msg"), "document": rec["doc"]})
     SH = 210 if not ctx.thorough() else 500
-    saved = [(k, sr) for k, sr in enumerate(allrecs) if sr[1].get("save") == "ok"]
+    # libs nested deeper than DEEP are judged on the implementation side only (save -> load identity, independent
+    # expat re-read against the specification writer): terms that deep are not handed to Coq's parser. The
+    # model's lib codec is structurally recursive, C18_roundtrip covers any depth.
+    DEEP = 150
+    saved = [(k, sr) for k, sr in enumerate(allrecs) if sr[1].get("save") == "ok" and sr[1].get("lib_depth", 0) <= DEEP]
+    stats["deep_libs_impl_oracle_only"] = sum(1 for _, r in allrecs if r.get("lib_depth", 0) > DEEP)
+    stats["max_lib_depth"] = max([r.get("lib_depth", 0) for _, r in allrecs] or [0])
+    stats["lib_nesting_cases"] = sum(1 for _, r in allrecs if r.get("kind") == "lib-nesting")
     for b in range(0, len(saved), SH):
         part = saved[b:b + SH]
         vf = os.path.join(out, "enc_%d.v" % b)
@@ -1009,7 +1047,8 @@ def run(ctx, known, built):
     rng = Rng(ctx.seed ^ 0xD18)
     pert = []
     src_trees = [(k, trees[k]) for k, (s, rec) in enumerate(allrecs)
-                 if trees[k] is not None and rec["wf"] and not (rec["cls_forbidden"] or rec["cls_norm"] or rec["cls_trim"])]
+                 if trees[k] is not None and rec["wf"] and not (rec["cls_forbidden"] or rec["cls_norm"] or rec["cls_trim"])
+                 and rec.get("lib_depth", 0) <= 12]
     npert = (1600 if not ctx.thorough() else 20000) if src_trees else 0
     for i in range(npert):
         k, t = src_trees[i % len(src_trees)] if i < len(src_trees) else rng.pick(src_trees)
@@ -1103,6 +1142,9 @@ def run(ctx, known, built):
                 "ill-formed in one or two ways; every string / number drawn with probability 1/7 resp. 1/6 from the "
                 "literals harvested from norad's source at run time + a fixed list of typical defaults), plus a sweep with "
                 "one document per harvested string (every string field holds it) and per number (every number holds it), "
+                "plus the lib nesting-depth dimension (array/dict/alternating chains 1..12 deep and 50, 100, 126..131, 200, 300, "
+                "400 deep in the document lib and an instance lib; deeper than 150 judged by the implementation-side oracle "
+                "only), "
                 "saved by norad (three in ten over an existing file: a longer or shorter designspace, arbitrary longer bytes, an empty file, "
                 "or a load-edit-save-in-place history; the bytes must equal those of a save to a fresh path), file parsed by expat and compared with the model's tree, loaded "
                 "by norad and compared with the model's decode; non-trivial = well-formed document (save, re-read and load all "
